@@ -21,7 +21,8 @@ def gen_cases(tier, seed, n_grammars, profiles=("general",), reprs=workload.REPR
                 d = grammars.reordered(d, rng, move_start=str(desc.get("name", "")).startswith(("general", "fx_layers", "fx_nested")))
             if expansion_share and rng.random() < expansion_share:
                 d["expansion"] = True
-            if not d.get("python") and pyrandom.Random(f"str-{seed}-{gi}-{rk}-{dk}").random() < 0.2:
+            fixed_member = str(desc.get("name", "")).startswith("fx_")
+            if not d.get("python") and (pyrandom.Random(f"str-{seed}-{gi}-{rk}-{dk}").random() < 0.2 or (fixed_member and rk in ("stack", "dsge") and (gi + seed) % 2 == 0)):
                 # declared with STRING annotations (postponed evaluation / quoted forward references), which the library
                 # resolves anew on every expansion: every refinement is a new object each time
                 d["_string_annotations"] = True
